@@ -20,7 +20,7 @@ func init() {
 		ID:        "C05",
 		Level:     "model_checking",
 		Technique: "exhaustive enumeration of handler programs (result-writer operation sequences x statement counts x parser outcomes) run on a real server over an in-memory transport; every writer call and every cycle compared with a reference state machine",
-		Rule:      "handler programs: all op sequences of length <= N over " + fmt.Sprintf("%q", c05Ops) + " x {return nil, return an error, return an error wrapping io.EOF / io.ErrUnexpectedEOF} x {0, 2 columns}; 2-3 statement products over a 4-op core; parser error / zero statements / blank queries; command tags of every length 0..130 and around 256, 1024, 4096; each program as first and as second Query of a connection; schedule part: a query of two statements overlapping Close (all schedules up to 2 preemptions, thorough: all schedules) is answered with the results of both statements or not at all; 7 programs x 5 states of a neighbouring connection of the same server (discarding until Sync, inside COPY-in, inside an extended batch, not started, after a failed query), the neighbour completed and checked afterwards",
+		Rule:      "handler programs: all op sequences of length <= N over " + fmt.Sprintf("%q", c05Ops) + " x {return nil, return an error, return an error wrapping io.EOF / io.ErrUnexpectedEOF, return an error decorated with each severity} x {0, 2 columns}; 2-3 statement products over a 4-op core; parser error / zero statements / blank queries; command tags of every length 0..130 and around 256, 1024, 4096; each program as first and as second Query of a connection; schedule part: a query of two statements overlapping Close (all schedules up to 2 preemptions, thorough: all schedules) is answered with the results of both statements or not at all; 7 programs x 5 states of a neighbouring connection of the same server (discarding until Sync, inside COPY-in, inside an extended batch, not started, after a failed query), the neighbour completed and checked afterwards",
 		Assumptions: []string{
 			"presence of RowDescription for a column-less statement, a CommandComplete for a statement returning nil without Complete, and the behaviour of calls after a successful Empty() are not asserted (only return-value <=> emission consistency)",
 			"reply attribution uses quiescence of the in-memory transport (server parked in Read), not time",
@@ -129,8 +129,8 @@ func c05Programs(ops []string, maxLen int, ncols int, f func(prog string, size i
 			}
 			parts = append(parts, op)
 		}
-		for _, ret := range []string{"", "!boom", "!EOF", "!UEOF"} {
-			if ret != "" && ret != "!boom" && len(sh) > 2 {
+		for _, ret := range []string{"", "!boom", "!EOF", "!UEOF", "!WARNING", "!NOTICE", "!INFO", "!LOG", "!DEBUG", "!FATAL", "!PANIC"} {
+			if ret != "" && ret != "!boom" && (len(sh) > 2 || (len(sh) > 1 && ret != "!EOF" && ret != "!UEOF")) {
 				continue // errors wrapping io.EOF / io.ErrUnexpectedEOF: behind every program of <= 2 operations
 			}
 			p := append([]string(nil), parts...)
